@@ -1,6 +1,6 @@
-(* Prop_C16.v — C16 (partial: an ownership ledger, not a memory model): values are dropped exactly once and
-   round-trip unchanged. *)
-From HL Require Import Base Values.
+(* Prop_C16.v — C16 (an ownership model, not a memory model): values are dropped exactly once and round-trip unchanged.
+   First the boxed collection's ledger (Values.v), then every declared structure of any nesting and size (VTree.v). *)
+From HL Require Import Base Values VTree Pf_C16.
 
 Lemma drop_vals_count vs : forall d i,
   drop_vals d vs i = d i + count_occ Nat.eq_dec (map fst vs) i.
@@ -76,7 +76,94 @@ Proof.
   apply andb_true_iff in H. apply H.
 Qed.
 
+(* ================================================================ every declared structure (VTree.v, Pf_C16.v) *)
+
+(* [T; N]::into_inner / get_mut / guard / data_mut: the MaybeUninit loop writes every slot exactly once before
+   assume_init reads it, for every N *)
+Theorem C16_array_loop_is_identity : forall (A : Type) (xs : list A), arr_collect xs = Some xs.
+Proof. exact @arr_collect_id. Qed.
+
+(* into_inner of ANY structure (locks, Poisonable wrappers, Vec / Box<[T]> / array / tuple, boxed / owned / retrying
+   collections, nested to any depth, any sizes): it returns the structure-preserving image of the stored payloads — which
+   flattens to exactly the stored payloads in declared order — runs no destructor, frees the heap cell and the lock cache
+   of every boxed collection on the way exactly once; dropping what came back drops every payload once per occurrence *)
+Theorem C16_into_inner_every_structure :
+  forall t,
+    fst (into_inner t) = Some (spec t) /\
+    tokvals (flat (spec t)) = vals t /\
+    (forall i, count_ev (is_drop i) (snd (into_inner t)) = 0) /\
+    (forall c, count_ev (is_cell c) (snd (into_inner t)) = occ c (cells t) /\
+               count_ev (is_cache c) (snd (into_inner t)) = occ c (cells t)) /\
+    (forall i, count_ev (is_drop i) (drop_i (spec t)) = occ i (ids t)).
+Proof.
+  intros t. split; [apply into_inner_spec|]. split; [apply flat_spec_vals|]. split; [apply into_inner_no_drop|].
+  split; [apply into_inner_cells|apply drop_i_spec].
+Qed.
+
+Theorem C16_get_mut_every_structure : forall t, get_mut t = Some (spec t).
+Proof. exact get_mut_spec. Qed.
+
+(* plain drop (also: a checked constructor rejecting its input, drop by unwinding) of ANY structure *)
+Theorem C16_drop_every_structure :
+  forall t, (forall i, count_ev (is_drop i) (drop_t t) = occ i (ids t)) /\
+            (forall c, count_ev (is_cell c) (drop_t t) = occ c (cells t) /\ count_ev (is_cache c) (drop_t t) = occ c (cells t)).
+Proof. intros t. split; [apply drop_t_drops|apply drop_t_cells]. Qed.
+
+(* a write under the lock at position p changes the p-th payload of the declared order and nothing else *)
+Theorem C16_write_position : forall p t, vals (bump p 0 t) = bump_vals p 0 (vals t).
+Proof. intros p t. apply vals_bump. Qed.
+
+(* the monitor evaluated on the implementation's observation holds of the model, for EVERY structure, path and write
+   position (no size bound): every payload dropped exactly once, the returned values are the stored ones at their
+   declared positions carrying the last write; and each boxed cell is freed exactly once *)
+Theorem C16_every_structure :
+  forall p t w n toks evs,
+    wf_vt n t = true -> tmodel p t w = (Some toks, evs) ->
+    mon_T16 p t w toks (drops_of evs n) = true /\
+    forall c, count_ev (is_cell c) evs = (if memb c (cells t) then 1 else 0) /\
+              count_ev (is_cache c) evs = (if memb c (cells t) then 1 else 0).
+Proof.
+  intros p t w n toks evs Hwf H. split; [now apply mon_T16_model|].
+  intros c. eapply tmodel_cells; [|exact H].
+  unfold wf_vt in Hwf. apply andb_true_iff in Hwf. destruct Hwf as [Hwf _]. apply andb_true_iff in Hwf. apply Hwf.
+Qed.
+
+(* no path of the model runs into the undefined case (an array slot read before it was written) *)
+Theorem C16_model_defined : forall p t w, exists toks evs, tmodel p t w = (Some toks, evs).
+Proof. exact tmodel_defined. Qed.
+
+Theorem C16_into_child_needs_forget :
+  forall c t, count_ev (is_cell c) (into_child_ev KBoxed c ++ drop_t (TColl KBoxed c t)) >= 2.
+Proof. exact into_child_without_forget_double_free. Qed.
+
+(* non-vacuity: a nested structure with boxed collections at two levels, a poisoned wrapper and an array *)
+Definition ex_t16 : vt :=
+  TColl KBoxed 0 (TCont CTup [TColl KBoxed 1 (TCont CVec [TLock (0, 0); TLock (1, 0)]);
+                              TColl KRetry 0 (TCont CArr [TLock (2, 0); TLock (3, 0)]);
+                              TPoison true (TColl KOwned 0 (TCont CBox [TLock (4, 0)]))]).
+Example C16_example_wf : wf_vt 32 ex_t16 = true.
+Proof. vm_compute. reflexivity. Qed.
+Example C16_example_run :
+  fst (tmodel QIntoInner ex_t16 (Some 3)) =
+  Some [KV (0, 0); KV (1, 0); KV (2, 0); KV (3, 1); KRes true; KV (4, 0)].
+Proof. vm_compute. reflexivity. Qed.
+
+Check C16_every_structure :
+  forall p t w n toks evs,
+    wf_vt n t = true -> tmodel p t w = (Some toks, evs) ->
+    mon_T16 p t w toks (drops_of evs n) = true /\
+    forall c, count_ev (is_cell c) evs = (if memb c (cells t) then 1 else 0) /\
+              count_ev (is_cache c) evs = (if memb c (cells t) then 1 else 0).
+
 Print Assumptions C16_boxed_drop_exactly_once.
 Print Assumptions C16_boxed_into_child_roundtrip.
 Print Assumptions C16_into_child_without_forget_is_wrong.
 Print Assumptions C16_monitor.
+Print Assumptions C16_array_loop_is_identity.
+Print Assumptions C16_into_inner_every_structure.
+Print Assumptions C16_get_mut_every_structure.
+Print Assumptions C16_drop_every_structure.
+Print Assumptions C16_write_position.
+Print Assumptions C16_every_structure.
+Print Assumptions C16_model_defined.
+Print Assumptions C16_into_child_needs_forget.
